@@ -1,9 +1,266 @@
-(* C12 lemmas *)
+(* C12 lemmas, part 1: inverses, symmetry, positive semidefiniteness, Kalman measurement/time update *)
 From Coq Require Import ZArith QArith List Bool Lia Lqa Setoid Morphisms.
 From QE Require Import Base.Num Base.LinAlg Base.Gauss C12.Model.
 Import ListNotations.
 Local Open Scope nat_scope.
+Local Open Scope Q_scope.
 
-Lemma moment_seq_length {T} `{Num T} n m k l (A C G : list (list T)) Ho t mu Sx :
-  length (moment_seq n m k l A C G Ho t mu Sx) = t.
-Proof. revert mu Sx. induction t; intros; simpl; [reflexivity|]. now rewrite IHt. Qed.
+Lemma inv_checked_spec k (F Fi : Qmat) : inv_checked k F = Some Fi ->
+  meq k k (mmul k k k F Fi) (mid k) /\ meq k k (mmul k k k Fi F) (mid k).
+Proof.
+  unfold inv_checked. destruct (solve_checked k k F (mid k)) as [X|] eqn:E; [|discriminate].
+  destruct (mall2 k k neqb (mmul k k k X F) (mid k)) eqn:E2; [|discriminate].
+  intros E3. injection E3 as <-. split.
+  - now apply solve_checked_correct.
+  - now apply mall2_meq.
+Qed.
+
+Section Joseph.
+Variables (n k : nat) (Sg G R M : Qmat).
+Let F := kal_F n k G R Sg.
+Let X := msub n n (mid n) (mmul n k n M G).
+Hypothesis HMF : meq n k (mmul n k k M F) (kal_E n k G Sg).
+
+Lemma joseph_alg :
+  meq n n (msub n n Sg (mmul n k n M (mmul k n n G Sg)))
+          (madd n n (mmul n n n (mmul n n n X Sg) (mtr n n X))
+                    (mmul n k n (mmul n k k M R) (mtr n k M))).
+Proof.
+  assert (Hkey : meq n n
+            (madd n n (mmul n k n M (mmul k n n G (mmul n n n Sg (mmul n k n (mtr k n G) (mtr n k M)))))
+                      (mmul n k n M (mmul k k n R (mtr n k M))))
+            (mmul n n n Sg (mmul n k n (mtr k n G) (mtr n k M)))).
+  { rewrite <- (mmul_assoc n n k n Sg (mtr k n G) (mtr n k M)) at 2.
+    fold (kal_E n k G Sg). rewrite <- HMF. unfold F, kal_F.
+    rewrite mmul_madd_distr_l. rewrite mmul_madd_distr_r.
+    rewrite !mmul_assoc. reflexivity. }
+  subst X.
+  rewrite mtr_msub, mtr_mid, mtr_mmul.
+  rewrite mmul_msub_distr_r, mmul_id_l.
+  rewrite mmul_msub_distr_l, mmul_id_r.
+  rewrite mmul_msub_distr_r.
+  rewrite !mmul_assoc.
+  intros i j Hi Hj. specialize (Hkey i j Hi Hj).
+  rewrite get_madd in Hkey by assumption.
+  mat_entries. lra.
+Qed.
+End Joseph.
+(* ---------------- symmetry *)
+#[global] Instance msym_proper n : Proper (meq n n ==> iff) (msym n).
+Proof. intros A B E. unfold msym. now rewrite E. Qed.
+
+Lemma msym_sandwich n p (X S : Qmat) : msym p S ->
+  msym n (mmul n p n (mmul n p p X S) (mtr n p X)).
+Proof.
+  unfold msym. intros HS.
+  rewrite mtr_mmul, mtr_mtr, mtr_mmul, HS. now rewrite mmul_assoc.
+Qed.
+
+Lemma msym_madd n A B : msym n A -> msym n B -> msym n (madd n n A B).
+Proof. unfold msym. intros HA HB. now rewrite mtr_madd, HA, HB. Qed.
+
+Lemma msym_outer r c (M : Qmat) : msym r (outer r c M).
+Proof. unfold msym, outer. rewrite mtr_mmul, mtr_mtr. reflexivity. Qed.
+
+(* ---------------- positive semidefiniteness: x' S x >= 0 for every n x 1 matrix x *)
+Definition xSx (n : nat) (S x : Qmat) : Q := get (mmul 1 n 1 (mtr n 1 x) (mmul n n 1 S x)) 0 0.
+Definition mpsd (n : nat) (S : Qmat) : Prop := forall x : Qmat, 0 <= xSx n S x.
+
+Lemma xSx_proper n S S' x : meq n n S S' -> xSx n S x == xSx n S' x.
+Proof. intros E. unfold xSx. assert (Hm : meq 1 1 (mmul 1 n 1 (mtr n 1 x) (mmul n n 1 S x)) (mmul 1 n 1 (mtr n 1 x) (mmul n n 1 S' x))) by now rewrite E. apply Hm; lia. Qed.
+
+#[global] Instance mpsd_proper n : Proper (meq n n ==> iff) (mpsd n).
+Proof.
+  intros A B E. unfold mpsd. split; intros HH x.
+  - rewrite <- (xSx_proper n A B x E). apply HH.
+  - rewrite (xSx_proper n A B x E). apply HH.
+Qed.
+
+Lemma xSx_sandwich n p (X S x : Qmat) :
+  xSx n (mmul n p n (mmul n p p X S) (mtr n p X)) x == xSx p S (mmul p n 1 (mtr n p X) x).
+Proof.
+  unfold xSx.
+  assert (Hm : meq 1 1
+    (mmul 1 n 1 (mtr n 1 x) (mmul n n 1 (mmul n p n (mmul n p p X S) (mtr n p X)) x))
+    (mmul 1 p 1 (mtr p 1 (mmul p n 1 (mtr n p X) x)) (mmul p p 1 S (mmul p n 1 (mtr n p X) x)))).
+  { rewrite mtr_mmul, mtr_mtr. rewrite !mmul_assoc. reflexivity. }
+  apply Hm; lia.
+Qed.
+
+Lemma mpsd_sandwich n p (X S : Qmat) : mpsd p S -> mpsd n (mmul n p n (mmul n p p X S) (mtr n p X)).
+Proof. intros HS x. rewrite xSx_sandwich. apply HS. Qed.
+
+Lemma xSx_madd n A B x : xSx n (madd n n A B) x == xSx n A x + xSx n B x.
+Proof.
+  unfold xSx.
+  assert (Hm : meq 1 1 (mmul 1 n 1 (mtr n 1 x) (mmul n n 1 (madd n n A B) x))
+     (madd 1 1 (mmul 1 n 1 (mtr n 1 x) (mmul n n 1 A x)) (mmul 1 n 1 (mtr n 1 x) (mmul n n 1 B x)))).
+  { rewrite mmul_madd_distr_r, mmul_madd_distr_l. reflexivity. }
+  rewrite (Hm 0%nat 0%nat) by lia. rewrite get_madd by lia. reflexivity.
+Qed.
+
+Lemma mpsd_madd n A B : mpsd n A -> mpsd n B -> mpsd n (madd n n A B).
+Proof. intros HA HB x. rewrite xSx_madd. specialize (HA x). specialize (HB x). lra. Qed.
+
+Lemma mpsd_mid n : mpsd n (mid n).
+Proof.
+  intros x. unfold xSx.
+  assert (Hm : meq 1 1 (mmul 1 n 1 (mtr n 1 x) (mmul n n 1 (mid n) x)) (mmul 1 n 1 (mtr n 1 x) x))
+    by now rewrite mmul_id_l.
+  rewrite (Hm 0%nat 0%nat) by lia. rewrite get_mmul by lia.
+  apply sumQ_nonneg. intros l Hl. rewrite get_mtr by lia.
+  assert (0 <= get x l 0 * get x l 0) by nra. assumption.
+Qed.
+
+Lemma mpsd_outer r c (M : Qmat) : mpsd r (outer r c M).
+Proof.
+  unfold outer.
+  assert (E : meq r r (mmul r c r M (mtr r c M)) (mmul r c r (mmul r c c M (mid c)) (mtr r c M)))
+    by now rewrite mmul_id_r.
+  rewrite E. apply mpsd_sandwich. apply mpsd_mid.
+Qed.
+
+Lemma mpsd_mzero n : mpsd n (mzero n n).
+Proof.
+  intros x. unfold xSx.
+  assert (Hm : meq 1 1 (mmul 1 n 1 (mtr n 1 x) (mmul n n 1 (mzero n n) x)) (mzero 1 1))
+    by now rewrite mmul_mzero_l, mmul_mzero_r.
+  rewrite (Hm 0%nat 0%nat) by lia. rewrite get_mzero by lia. apply Qle_refl.
+Qed.
+
+(* ---------------- inverses *)
+Definition is_inv (k : nat) (F Fi : Qmat) : Prop :=
+  meq k k (mmul k k k F Fi) (mid k) /\ meq k k (mmul k k k Fi F) (mid k).
+
+Lemma inv_unique k (F1 F2 Fi1 Fi2 : Qmat) :
+  meq k k F1 F2 -> is_inv k F1 Fi1 -> is_inv k F2 Fi2 -> meq k k Fi1 Fi2.
+Proof.
+  intros E [_ H1] [H2 _].
+  rewrite <- (mmul_id_r k k Fi1). rewrite <- H2. rewrite <- mmul_assoc.
+  rewrite <- E. rewrite H1. now rewrite mmul_id_l.
+Qed.
+
+(* ---------------- Kalman: measurement update in Joseph form *)
+Definition joseph_form (n k : nat) (G R Sg M : Qmat) : Qmat :=
+  let X := msub n n (mid n) (mmul n k n M G) in
+  madd n n (mmul n n n (mmul n n n X Sg) (mtr n n X)) (mmul n k n (mmul n k k M R) (mtr n k M)).
+
+Lemma ptf_with_joseph n k (G R Fi xhat Sg y : Qmat) :
+  is_inv k (kal_F n k G R Sg) Fi ->
+  meq n n (snd (ptf_with n k G Fi (xhat, Sg) y)) (joseph_form n k G R Sg (kal_M n k G Sg Fi)).
+Proof.
+  intros [_ HL]. simpl. unfold joseph_form. apply joseph_alg.
+  unfold kal_M. rewrite mmul_assoc, HL. now rewrite mmul_id_r.
+Qed.
+
+Lemma prior_to_filtered_inv n k l (G Hm : Qmat) st y st' :
+  prior_to_filtered n k l G Hm st y = Some st' ->
+  exists Fi, is_inv k (kal_F n k G (outer k l Hm) (snd st)) Fi /\ st' = ptf_with n k G Fi st y.
+Proof.
+  unfold prior_to_filtered.
+  destruct (inv_checked k (kal_F n k G (outer k l Hm) (snd st))) as [Fi|] eqn:E; [|discriminate].
+  intros E2. injection E2 as <-. exists Fi. split; [|reflexivity]. now apply inv_checked_spec.
+Qed.
+
+Theorem kalman_joseph n k l (G Hm xhat Sg y x' S' : Qmat) :
+  prior_to_filtered n k l G Hm (xhat, Sg) y = Some (x', S') ->
+  exists Fi, is_inv k (kal_F n k G (outer k l Hm) Sg) Fi /\
+    let M := kal_M n k G Sg Fi in
+    x' = madd n 1 xhat (mmul n k 1 M (msub k 1 y (mmul k n 1 G xhat))) /\
+    meq n n S' (joseph_form n k G (outer k l Hm) Sg M).
+Proof.
+  intros E. apply prior_to_filtered_inv in E. destruct E as [Fi [HI E]].
+  exists Fi. split; [exact HI|]. simpl in HI.
+  pose proof (ptf_with_joseph n k G (outer k l Hm) Fi xhat Sg y HI) as HJ.
+  rewrite <- E in HJ. simpl in HJ. simpl in E. injection E as -> _. split; [reflexivity|exact HJ].
+Qed.
+
+Lemma joseph_form_sym n k (G R Sg M : Qmat) : msym n Sg -> msym k R -> msym n (joseph_form n k G R Sg M).
+Proof. intros. unfold joseph_form. apply msym_madd; now apply msym_sandwich. Qed.
+
+Lemma joseph_form_psd n k (G R Sg M : Qmat) : mpsd n Sg -> mpsd k R -> mpsd n (joseph_form n k G R Sg M).
+Proof. intros. unfold joseph_form. apply mpsd_madd; now apply mpsd_sandwich. Qed.
+
+Theorem prior_to_filtered_sym_psd n k l (G Hm : Qmat) st y st' :
+  prior_to_filtered n k l G Hm st y = Some st' ->
+  msym n (snd st) /\ mpsd n (snd st) -> msym n (snd st') /\ mpsd n (snd st').
+Proof.
+  destruct st as [xhat Sg], st' as [x' S']. intros E [HS HP]. simpl in *.
+  apply kalman_joseph in E. destruct E as [Fi [_ [_ HJ]]].
+  split; rewrite HJ.
+  - apply joseph_form_sym; [assumption|apply msym_outer].
+  - apply joseph_form_psd; [assumption|apply mpsd_outer].
+Qed.
+
+Lemma forecast_cov n m (A C xhat Sg : Qmat) :
+  meq n n (snd (filtered_to_forecast n m A C (xhat, Sg)))
+          (madd n n (mmul n n n (mmul n n n A Sg) (mtr n n A)) (outer n m C)).
+Proof. simpl. now rewrite mmul_assoc. Qed.
+
+Theorem filtered_to_forecast_sym_psd n m (A C : Qmat) st :
+  msym n (snd st) /\ mpsd n (snd st) ->
+  msym n (snd (filtered_to_forecast n m A C st)) /\ mpsd n (snd (filtered_to_forecast n m A C st)).
+Proof.
+  destruct st as [xhat Sg]. intros [HS HP]. simpl in HS, HP.
+  split; rewrite forecast_cov.
+  - apply msym_madd; [now apply msym_sandwich|apply msym_outer].
+  - apply mpsd_madd; [now apply mpsd_sandwich|apply mpsd_outer].
+Qed.
+
+Theorem update_sym_psd n m k l (A C G Hm : Qmat) st y st' :
+  update n m k l A C G Hm st y = Some st' ->
+  msym n (snd st) /\ mpsd n (snd st) -> msym n (snd st') /\ mpsd n (snd st').
+Proof.
+  unfold update. destruct (prior_to_filtered n k l G Hm st y) as [sf|] eqn:E; [|discriminate].
+  intros E2 HH. injection E2 as <-. apply filtered_to_forecast_sym_psd.
+  eapply prior_to_filtered_sym_psd; eassumption.
+Qed.
+
+(* every state along a record *)
+Theorem kalman_path_sym_psd n m k l (A C G Hm : Qmat) ys : forall st,
+  msym n (snd st) /\ mpsd n (snd st) ->
+  forall st', In (Some st') (kalman_path n m k l A C G Hm st ys) -> msym n (snd st') /\ mpsd n (snd st').
+Proof.
+  induction ys as [|y r IH]; intros st HH st' Hin; simpl in Hin; [contradiction|].
+  destruct (update n m k l A C G Hm st y) as [s1|] eqn:E.
+  - assert (H1 : msym n (snd s1) /\ mpsd n (snd s1)) by (eapply update_sym_psd; eassumption).
+    destruct Hin as [Hin|Hin].
+    + injection Hin as <-. exact H1.
+    + eapply IH; eassumption.
+  - destruct Hin as [Hin|[]]. discriminate.
+Qed.
+
+(* ---------------- stationary values *)
+Theorem kalman_stationary_fixed_point n m k l (A C G Hm Sinf Fi Kinf xhat y : Qmat) st' :
+  is_inv k (kal_F n k G (outer k l Hm) Sinf) Fi ->
+  meq n n Sinf (dual_riccati_rhs n k A G (outer n m C) Fi Sinf) ->
+  stationary_K n k l A G Hm Sinf = Some Kinf ->
+  update n m k l A C G Hm (xhat, Sinf) y = Some st' ->
+  meq n n (snd st') Sinf /\
+  meq n k Kinf (mmul n n k A (kal_M n k G Sinf Fi)) /\
+  meq n 1 (fst st') (madd n 1 (mmul n n 1 A xhat) (mmul n k 1 Kinf (msub k 1 y (mmul k n 1 G xhat)))).
+Proof.
+  intros HI HR HK HU.
+  (* the gain *)
+  assert (EK : meq n k Kinf (mmul n n k A (kal_M n k G Sinf Fi))).
+  { unfold stationary_K in HK.
+    destruct (inv_checked k _) as [t2|] eqn:E2 in HK; [|discriminate].
+    injection HK as <-. apply inv_checked_spec in E2. fold (is_inv k (madd k k (mmul k n k G (mmul n n k Sinf (mtr k n G))) (outer k l Hm)) t2) in E2.
+    assert (Et : meq k k t2 Fi).
+    { eapply inv_unique; [|exact E2|exact HI]. unfold kal_F. now rewrite mmul_assoc. }
+    rewrite Et. unfold kal_M, kal_E. now rewrite !mmul_assoc. }
+  (* the update *)
+  unfold update in HU.
+  destruct (prior_to_filtered n k l G Hm (xhat, Sinf) y) as [sf|] eqn:E; [|discriminate].
+  injection HU as <-. apply prior_to_filtered_inv in E. destruct E as [Fi' [HI' ->]].
+  simpl in HI'.
+  assert (EF : meq k k Fi' Fi) by (eapply inv_unique; [reflexivity|exact HI'|exact HI]).
+  split; [|split; [exact EK|]].
+  - transitivity (dual_riccati_rhs n k A G (outer n m C) Fi Sinf); [|symmetry; exact HR].
+    simpl. unfold dual_riccati_rhs, kal_M.
+    rewrite EF.
+    rewrite mmul_msub_distr_r, mmul_msub_distr_l.
+    rewrite !mmul_assoc. reflexivity.
+  - simpl. rewrite EK. unfold kal_M. rewrite EF.
+    rewrite mmul_madd_distr_l. rewrite !mmul_assoc. reflexivity.
+Qed.
